@@ -184,7 +184,7 @@ theorem lG8_reconcile (w : World) (wl : WL) (s : Sub)
     rw [hs1]
     dsimp only
     rw [if_neg (by simp [hc]), hd]
-  rw [reconcile_finalising_eq w wl _ _ d false _ hhf hcs hph hr hwl hc hfz]
+  rw [reconcile_finalising_eq w wl _ _ d false _ hhf hcs hph hr hwl hc hfz hg.notDeleting hg.enabled]
   rw [if_neg (by simp)]
 
 /-! ### the facts of the two classes -/
